@@ -209,3 +209,6 @@ Proof.
   - rewrite Z.min_r by lia. unfold zlen. rewrite Nat2Z.id.
     rewrite !firstn_all2; auto. unfold zlen in *. lia.
 Qed.
+
+Lemma zlen_le0_nil {A} (l : list A) : zlen l <= 0 -> l = [].
+Proof. destruct l as [|x l]; [reflexivity|]. rewrite zlen_cons. pose proof (zlen_nonneg l). lia. Qed.
